@@ -150,17 +150,43 @@ func c15c(c *Ctx) {
 		if fn == nil {
 			continue
 		}
+		// sites are grouped by the write they come from: a write whose name operand is itself a
+		// choice (`getLabel` = the script name for chunk 0, <script>_<id> otherwise) appears as
+		// several alternatives of one write and is judged as that one write
 		var glob, loc []writeSite
+		merge := func(list []writeSite, ws writeSite) []writeSite {
+			for i := range list {
+				if list[i].call == ws.call && list[i].inner == ws.inner {
+					list[i].cond = orDNF(list[i].cond, ws.cond)
+					return list
+				}
+			}
+			return append(list, ws)
+		}
+		nameOf := func(ws writeSite) string {
+			if ws.alt > 0 && len(ws.origT) >= 1 {
+				return ws.origT[0]
+			}
+			if len(ws.argT) == 1 {
+				return ws.argT[0]
+			}
+			return ""
+		}
 		for _, ws := range c.sitesOf(fn) {
 			if !ws.isFmt {
 				continue
 			}
-			switch ws.format {
-			case "%s::\n":
-				glob = append(glob, ws)
-			case "%s:\n":
-				if len(ws.argT) == 1 && ws.argT[0] == s.name {
-					loc = append(loc, ws)
+			// the label line: "<name>::\n" / "<name>:\n", the name being one operand (possibly
+			// already resolved into alternatives, which may be constants folded into the format)
+			f := ws.format
+			switch {
+			case strings.HasSuffix(f, "::\n") && (f == "%s::\n" || ws.alt > 0) && !strings.HasPrefix(f, "\t"):
+				ws.argT = []string{nameOf(ws)}
+				glob = merge(glob, ws)
+			case strings.HasSuffix(f, ":\n") && !strings.HasSuffix(f, "::\n") && (f == "%s:\n" || ws.alt > 0) && !strings.HasPrefix(f, "\t"):
+				if nameOf(ws) == s.name {
+					ws.argT = []string{nameOf(ws)}
+					loc = merge(loc, ws)
 				}
 			}
 		}
